@@ -36,6 +36,8 @@ pub enum Knob {
     GroupCommit(bool),
     AssignGroup { peer: NodeId, group: u64 },
     ClearGroups,
+    /// every peer id of the universe gets commit group 1 + mix(seed, id) % k (the application's placement map)
+    AssignAllGroups { seed: u64, k: u64 },
 }
 
 /// One single change of a membership proposal: (type, node id); type 0 = AddNode,
